@@ -210,6 +210,10 @@ def _case(seed: int) -> Dict[str, Any]:
 
     evs = cpgen.gen_cp_events(seed, n_steps=3, n_streams=1 + seed % 3, annotations=bool(seed % 2), n_threads=2 if seed % 4 == 1 else 1, frac_kernels=(seed % 4 == 2), old_nccl=(seed % 3 == 1))
     inst = 0 if seed % 2 else (0, 1)
+    if seed % 3 == 1:
+        for e in evs:  # communication kernels under their full templated names (return type first): the class is decided on the SHORTENED name
+            if e.get("name") == "ncclKernel_AllReduce_RING_LL_Sum_float":
+                e["name"] = "void ncclKernel_AllReduce_RING_LL_Sum<float, 4>(ncclWork*)"
     fails: List[Dict[str, Any]] = []
     inp = {"seed": seed, "instance_id": inst, "events": {0: evs}}
     with rt.trace_dir({0: evs}) as d:
@@ -289,6 +293,13 @@ def _case(seed: int) -> Dict[str, Any]:
         from hv import gen as _gen
 
         file_name = {i: e["name"] for i, e in _gen.complete_events(evs)}
+
+        def _short_file_name(row):
+            try:
+                return shorten_name(file_name[int(float(row["event_idx"]))])
+            except (KeyError, TypeError, ValueError):
+                return str(row["s_name"])
+
         for _, row in bd.iterrows():
             t = row["type"]
             if t == "critical_path_kernel_kernel_delay":
@@ -299,7 +310,7 @@ def _case(seed: int) -> Dict[str, Any]:
                 exp = ""
             elif row["stream"] < 0:
                 exp = "cpu_bound"
-            elif re.match(r"^nccl.*Kernel", shorten_name(file_name.get(int(row["event_idx"]), str(row["s_name"]))) if str(row["event_idx"]).lstrip("-").isdigit() else str(row["s_name"])):
+            elif re.match(r"^nccl.*Kernel", _short_file_name(row)):
                 exp = "gpu_communication_bound"
             else:
                 exp = "gpu_compute_bound"
